@@ -211,6 +211,12 @@ def run(r: core.Runner):
                                 True, f"{step}: operations on the final path and its .tmp are {ops}, the protocol is {expected}")
                     return
             # an existing final output is never modified (and nothing is written at all)
+            # (the inputs are made NEWER than the existing output first: "never modified" is unconditional, not make-style)
+            t_out = os.stat(out).st_mtime
+            times = (os.stat(out).st_atime_ns, os.stat(out).st_mtime_ns)
+            for a in argv:
+                if a != out and os.path.isfile(a):
+                    os.utime(a, (t_out + 10, t_out + 10))
             before = os.stat(out).st_mtime_ns
             tr2 = os.path.join(d, "trace2.txt")
             rc, err = run_driver(step, "none", 0, argv, strace_out=tr2 if have_strace else None)
